@@ -2,8 +2,8 @@
 
 PANIC / LOOP half (this file's own part)
   * Coq: coq/Properties/C12.v over the tree model (Tree/NoPanic*.v): every `Pan` / `Fuel` site reachable from run_op is
-    excluded under PanicFree + op_wf for the covered operations (partial-coverage rule: pending_op), recursion depth =
-    tree height; tables_ok12 evaluated on the regenerated tables.
+    excluded under PanicFree + op_wf for all 26 operations (pending classes: Float set_character_data, cross-model moves),
+    recursion depth = tree height; tables_ok12 evaluated on the regenerated tables.
   * tie: the generic tree correspondence (implementation vs extracted model: an `R PANIC` / `R HANG` of either side is an
     observation) + the implementation oracle stream (`FAIL C12 kind=panic|hang|spurious-parent-locked`).
   * implementation-only fuzzer `avh panics fuzz` (harness/src/panics.rs): histories of the generic generator, models grown
@@ -17,7 +17,7 @@ from lib import VERIF, WORK
 
 PID = "C12"
 DUMP = treecommon.DUMP
-PW = os.path.join(WORK, "panics")
+PW = os.path.join(WORK, os.environ.get("C12_WORKDIR", "panics"))
 NPROC = 8
 
 
@@ -247,9 +247,12 @@ def run(tier, seed):
                    "handle pairs} followed by a battery of every public Element/AutosarModel/ArxmlFile method with boundary arguments on live, "
                    "stale and foreign handles (fuzzer_calls = library calls made, each under catch_unwind + 3 s watchdog); (3) deep-nesting "
                    "probes (1000 / 3000 [/ 10000] nested packages x 15 actions) in child processes; (4) replays of the fixed findings.",
-        assumptions=["C12_no_panic_partial covers the operations of covered_op; the others (pending_op) are covered by the correspondence and "
-                     "the fuzzer only", "f64::to_string is not modelled (Unmodelled12): float-to-text conversions are covered by the fuzzer only",
-                     "check_fn (the regex validators) is total: C19"])
+        assumptions=["C12_no_panic_partial covers all 26 constructors of the operation alphabet; two argument / state classes are PENDING (covered by "
+                     "the correspondence and the fuzzer only): set_character_data with a Float value (f64::to_string is not modelled) and "
+                     "cross-model moves (move_element_full; side condition side12)",
+                     "SizeOk: every identifiables map has fewer than 10^39 entries (injectivity of format!(\"{counter}\") in make_unique_item_name)",
+                     "check_fn (the regex validators) is total: C19",
+                     "op_wf: handles are handles (allocated elements, existing models / files); names and enum values are discriminants of the Rust enums"])
 
 
 def replay(path):
